@@ -54,6 +54,9 @@ pub fn check_term(s: &mut Sess, rep: &mut Report, t: RegLan, k: usize, small_pro
     }
     rep.inc("closures_enumerated");
     rep.max("closure_size", items.len() as u64);
+    if small_profile {
+        rep.max("closure_size_under_bounded_progress_verdict", items.len() as u64);
+    }
     if items.is_empty() || !std::ptr::eq(items[0], t) {
         s.viol(rep, "closure", "closure:first", format!("iter_derivatives({}) does not start with the expression itself", term_text(t)), k);
         return;
@@ -164,7 +167,13 @@ pub fn check_program(prog: &Program, seed: u64, thorough: bool, small: bool, rep
         let nontrivial = s.run.refs[k].size() >= 3;
         let key = s.run.refs[k].show();
         rep.eval(if nontrivial { Some(&key) } else { None });
-        check_term(&mut s, rep, t, k, small);
+        // the bounded-progress verdict is only claimed for terms of expanded alphabetic width <= 8
+        // (no counting loop or concatenation can then make the derivative closure large; see DESIGN.md 9.5)
+        let narrow = s.run.refs[k].expanded_width() <= 8;
+        if small && narrow {
+            rep.inc("terms_under_bounded_progress_verdict");
+        }
+        check_term(&mut s, rep, t, k, small && narrow);
     }
 }
 
